@@ -657,7 +657,9 @@ fn deser_col_specs_generic<'frame, 'result>(
     make_col_spec: fn(&'frame str, ColumnType<'result>, TableSpec<'frame>) -> ColumnSpec<'result>,
     deser_type: fn(&mut &'frame [u8]) -> StdResult<ColumnType<'result>, CqlTypeParseError>,
 ) -> StdResult<Vec<ColumnSpec<'result>>, ColumnSpecParseError> {
-    let mut col_specs = Vec::with_capacity(col_count);
+    // The announced count is not trusted for preallocation: every column spec takes
+    // at least 4 bytes (name length + type id), so the remaining buffer bounds it.
+    let mut col_specs = Vec::with_capacity(std::cmp::min(col_count, buf.len() / 4));
     for col_idx in 0..col_count {
         let table_spec = match global_table_spec {
             // If global table spec was provided, we simply clone it to each column spec.
@@ -933,7 +935,8 @@ fn deser_prepared_metadata(
     let pk_count: usize =
         types::read_int_length(buf).map_err(PreparedMetadataParseError::PkCountParseError)?;
 
-    let mut pk_indexes = Vec::with_capacity(pk_count);
+    // Same here: every partition key index takes 2 bytes.
+    let mut pk_indexes = Vec::with_capacity(std::cmp::min(pk_count, buf.len() / 2));
     for i in 0..pk_count {
         pk_indexes.push(PartitionKeyIndex {
             index: types::read_short(buf)
